@@ -312,9 +312,12 @@ def macro_check(case, ctx):
                 sel = model.select(n, mask)
                 nt_flag = (len(set(sel)) < n or len(sel) != len(set(sel))) and n > 0
             for kernel, exp in exp_by_kernel.items():
-                if mask is not None and mask["kind"] == "slice" and (
-                        kernel not in ("sum", "first", "size") or split not in ({"nt": 1}, {"nt": 2})):
-                    continue  # slices are applied by NumPy to keys and values alike before any kernel logic
+                if mask is not None and mask["kind"] == "slice":
+                    # slices are applied to keys and values before any kernel logic: a reduced set of kernels / splits suffices,
+                    # plus stepped slices over chunked value lists (the stride must run through the chunk boundaries)
+                    stepped_over_chunks = mask.get("step") not in (None, 1) and "chunks" in split and kernel in ("sum", "first")
+                    if not stepped_over_chunks and (kernel not in ("sum", "first", "size") or split not in ({"nt": 1}, {"nt": 2})):
+                        continue
                 ctx.evaluations += 1
                 ctx.per_sub[sub] += 1
                 if nt_flag:
